@@ -3,7 +3,7 @@
    Model/C02TyMut.v (the same with in-place adaptation of lists and dicts), Spec/C02Guard.v (`impl` = the pinned tree,
    `in_guard` = no recorded defect changes what the pinned tree does with this input). The loader `yl` is arbitrary. *)
 From JV Require Import Lib.Base Model.TyVal Model.Scalar Model.Ty Model.C02TyMut Spec.Conforms Spec.ConformsRx Spec.C02Defs
-  Spec.C02Guard Spec.C02Group Model.C02Ext Proofs.C02Proofs Proofs.C02CompleteProofs Proofs.C02GuardProofs Proofs.C02ExtProofs.
+  Spec.C02Guard Spec.C02Group Model.C02Ext Proofs.C02Proofs Proofs.C02CompleteProofs Proofs.C02GuardProofs Proofs.C02ExtProofs Proofs.C02TextProofs.
 From Coq Require Import Permutation.
 
 (* ---- 1. accepted => conforms ----------------------------------------------------------------------------------- *)
@@ -231,6 +231,43 @@ Example C02_registered_member_example :  (* Union[PositiveFloat, int] on 10**400
   parse_key_x pinned yl0 tbl None [MOpq [80]%N; MTy TInt] (VInt (10 ^ 400)) = AOk (VInt (10 ^ 400))
   /\ parse_key_x pinned yl0 tbl None [MTy TInt; MOpq [80]%N] (VInt (10 ^ 400)) = AOk (VInt (10 ^ 400)).
 Proof. vm_compute. split; reflexivity. Qed.
+
+(* ---- 2d. command-line / config TEXT of the right shape is never rejected --------------------------------------- *)
+(* `text_shaped yl t s` (Spec/C02Defs.v, the function the judge evaluates as text_right_shape): the text is not blank and not
+   '-', load_basic reads it as the loader does, and the loader reads it as a value that is not a str and has the shape of
+   the hint. Every hint of the grammar, every text, every loader: the loaded value is adapted (None, lists, dicts), or the
+   parser keeps the text (ints, floats, bools) and the leaf / Literal / Any / Union branches load it again. *)
+Theorem C02_text_of_right_shape_accepted_repaired :
+  forall yl t s, wf_ty t = true -> text_shaped yl t s = true -> accepts all_fixed yl t (VStr s) = true.
+Proof. exact parse_key_text_complete. Qed.
+Print Assumptions C02_text_of_right_shape_accepted_repaired.
+
+(* the first pass alone (ActionTypeHint._check_type), before the re-check *)
+Theorem C02_text_of_right_shape_first_pass_repaired :
+  forall yl t s, wf_ty t = true -> text_shaped yl t s = true -> is_ok (check_type_g all_fixed yl t (VStr s)) = true.
+Proof. exact check_type_text_complete. Qed.
+Print Assumptions C02_text_of_right_shape_first_pass_repaired.
+
+(* the pinned tree inside the guard *)
+Theorem C02_text_of_right_shape_accepted :
+  forall yl t s, in_guard yl t (VStr s) = true -> wf_ty t = true -> text_shaped yl t s = true ->
+  is_ok (impl yl t (VStr s)) = true.
+Proof. exact text_complete_pinned. Qed.
+Print Assumptions C02_text_of_right_shape_accepted.
+
+(* the premises are satisfiable: '1' under Union[Literal['a', 1], None] (the parser keeps the text, the Literal branch loads
+   it) and '[1, 1]' under Union[List[int], None] (the loaded list is adapted), with a loader that reads both *)
+Definition yl1 (s : str) : lres :=
+  if str_eqb s [91;49;44;32;49;93]%N then LVal (VList [VInt 1; VInt 1]) else yl0 s.
+Example C02_text_shape_example :
+  text_shaped yl1 (TUnion [TLit [LStr [97]%N; LInt 1]; TNone]) [49]%N = true
+  /\ in_guard yl1 (TUnion [TLit [LStr [97]%N; LInt 1]; TNone]) (VStr [49]%N) = true
+  /\ impl yl1 (TUnion [TLit [LStr [97]%N; LInt 1]; TNone]) (VStr [49]%N) = AOk (VInt 1)
+  /\ text_shaped yl1 (TUnion [TList TInt; TNone]) [91;49;44;32;49;93]%N = true
+  /\ in_guard yl1 (TUnion [TList TInt; TNone]) (VStr [91;49;44;32;49;93]%N) = true
+  /\ impl yl1 (TUnion [TList TInt; TNone]) (VStr [91;49;44;32;49;93]%N) = AOk (VList [VInt 1; VInt 1])
+  /\ text_shaped yl1 TStr [49]%N = false.          (* a text that YAML reads as an int is not str-shaped: no claim *)
+Proof. vm_compute. repeat split. Qed.
 
 (* ---- 3. the hypotheses are satisfiable by non-trivial inputs ----------------------------------------------------- *)
 
